@@ -40,6 +40,9 @@ func checkC19(c *Ctx) {
 	// an expiry is an abnormal end: the will published is that of the current connection (a will flag
 	// cleared by an earlier DISCONNECT must not survive a session resume)
 	c.sessionConnectAndWill()
+	// the will of a silent client is published unless *this* connection said DISCONNECT: the handler clears the flag of the
+	// stored CONNECT itself, which every new connection replaces
+	c.disconnectCase()
 	c.drainBeforeEOF()
 	// the receiver keeps reading the socket (and so notices silence and the peer's close) whatever the processor waits for
 	c.ringMemorySafety()
